@@ -49,6 +49,7 @@ def run(ctx, rep):
         rep.ob('field-offset', path + ':no extra fields', not extra, '%s has fields the specification does not: %s' % (path, sorted(extra)), sp=adt['sp'])
         rep.ob('field-offset', path + ':packed', adt.get('repr_packed') and adt.get('repr_c'), '%s is not #[repr(C, packed)]' % path, sp=adt['sp'])
     fadt_ctor(f, rep)
+    generic_address(f, rep)
     # matrix cells: the index rule is shared with C12 (a value assigned to (i, j) must land at the row-major offset)
     import rules.C12 as C12
     C12.hmat(f, rep); C12.slit(f, rep, with_checksum=False)
@@ -75,6 +76,8 @@ def check_struct(f, rep, ty, ctor, items, source, self_view, table=False):
         if cb is None: rep.ob('anchor', subj, False, 'constructor not found'); return 0
         rep.analysed.add(cb['def'])
         args = sym_args(I, cb)
+        inv_ = field_invariants(f)
+        for a_ in args: apply_invariants(I, a_, inv_)      # struct arguments carry the invariants of their own constructors
         obj = run_fn(I, cb['def'], args)
     rep.analysed.add(f.method('Aml', aml_ty, 'to_aml_bytes'))
     if I.tops or not isinstance(obj, (StructV, EnumV)): rep.undecided('layout', subj, I.tops); return 0
@@ -93,6 +96,29 @@ def check_struct(f, rep, ty, ctor, items, source, self_view, table=False):
         rep.ob('layout', subj, True, detail={'bytes': show(seqlen(segs)), 'fields': len(exp), 'source': source})
     for off, what in mism:
         rep.ob('layout', '%s@%s' % (subj, off), False, '%s at offset %s: %s' % (subj, off, what), sp=sp_, detail={'offset': off, 'what': what, 'image': show_segs(segs)[:400]})
+    # bit-packed fields: under the constructor's refusals no component can spill into its neighbour or out of the field
+    # (the layout comparison above treats narrowing as exact; this is the side condition for packed caller values)
+    from cells import packing_defects
+    def packed_fields(ss, base, conds):
+        for p_, s_ in with_offsets(list(ss))[0]:
+            off = add(base, p_)
+            if s_[0] == 'int' and any(u[0] == 'or' for u in subterms(s_[1])): yield off, s_, conds
+            elif s_[0] == 'cond':
+                yield from packed_fields(s_[2], off, conds + [s_[1]]); yield from packed_fields(s_[3], off, conds + [bnot(s_[1])])
+            elif s_[0] == 'rep': yield from packed_fields(s_[3], off, conds)
+    for p_, s_, conds_ in packed_fields(segs, ZERO, []):
+        # refusals that dominate this field: those evaluated under path conditions that all hold where the field is emitted
+        ranges_ = dict(I.st.ranges); holds = set(conds_) | {c for c, _ in I.st.facts}
+        changed_ = True
+        while changed_:
+            changed_ = False
+            for g in I.guards:
+                if g['cond'] in holds or not is_term(g['cond']): continue
+                if all(c in holds for c in g.get('ctx', [])):
+                    holds.add(g['cond']); sym.refine(g['cond'], ranges_); changed_ = True
+        bad = packing_defects(s_[1], 8 * s_[2], ranges_)
+        rep.ob('packing', '%s@%s' % (subj, show(p_)), not bad, '%s at offset %s packs %s: %s' % (subj, show(p_), show(s_[1])[:120], '; '.join(bad[:2])), sp=sp_,
+               detail={'field': show(s_[1])[:200], 'defects': bad[:4], 'under': [show(c) for c in conds_]})
     # setter-filled fields: placement through the symbolic receiver
     setters = [(p, s, t) for (p, s, t) in tagged_positions(exp, tags) if isinstance(t, tuple) and t[0] in ('setter', 'setter-struct')]
     if setters:
@@ -108,6 +134,30 @@ def check_struct(f, rep, ty, ctor, items, source, self_view, table=False):
                 ok = g is not None and g[0] == 'int' and g[2] == s[2] and all(isinstance(a[1], str) and a[1].startswith('self.' + t[1] + '.') for a in atoms(g[1]))
                 rep.ob('setter-placement', '%s.%s@%s' % (ty, t[1], show(p)), ok, 'sub-structure %s of %s must occupy offset %s (%d bytes); found %s' % (t[1], ty, show(p), s[2], show_segs([g]) if g else 'nothing'), sp=sp_)
     return 1
+
+def generic_address(f, rep):
+    """sdt::GenericAddress (the raw-bytes GAS used with Sdt::append): ACPI 6.4 table 5.1 for every access width"""
+    ty = 'sdt::GenericAddress'
+    adt = f.adt(ty)
+    if not adt: rep.ob('anchor', ty, False, 'type not found'); return
+    got = {fd['name']: (fd['off'], fd['size']) for fd in adt['variants'][0]['fields']}
+    want = {'address_space_id': (0, 1), 'register_bit_width': (1, 1), 'register_bit_offset': (2, 1), 'access_size': (3, 1), 'address': (4, 8)}
+    rep.ob('field-offset', ty, got == want and adt.get('repr_packed') and adt.get('repr_c'), '%s is laid out as %s, specified %s (repr(C, packed))' % (ty, got, want), sp=adt['sp'])
+    fs = fns_of(f, ty)
+    for ctor, space in (('io_port_address', 1), ('mmio_address', 0)):
+        cb = fs.get(ctor)
+        if cb is None: rep.ob('anchor', '%s::%s' % (ty, ctor), False, 'constructor not found'); continue
+        for tv, sz in (('u8', 1), ('u16', 2), ('u32', 4), ('u64', 8)):
+            I = new_interp(f)
+            args = sym_args(I, cb)
+            st = run_fn(I, cb['def'], args, tsub={'T': tv}); rep.analysed.update([cb['def']] + I.calls_seen)
+            subj = '%s::%s<%s>' % (ty, ctor, tv)
+            if I.tops or not isinstance(st, StructV): rep.undecided('layout', subj, I.tops, cb['sp']); continue
+            exp = {'address_space_id': C(space), 'register_bit_width': C(8 * sz), 'register_bit_offset': ZERO, 'access_size': C({1: 1, 2: 2, 4: 3, 8: 4}[sz]), 'address': args[0]}
+            bad = [k for k, v in exp.items() if not (is_term(st.fields.get(k)) and equal(strip_trunc(st.fields[k]), v)[0])]
+            rep.ob('layout', subj, not bad, '%s sets %s; specified: space %d, width %d bits, offset 0, access size code %d, the address given' %
+                   (subj, {k: show(st.fields[k]) if is_term(st.fields.get(k)) else repr(st.fields.get(k)) for k in bad}, space, 8 * sz, {1: 1, 2: 2, 4: 3, 8: 4}[sz]), sp=cb['sp'],
+                   detail={'fields': {k: show(v) if is_term(v) else repr(v) for k, v in st.fields.items()}})
 
 def fadt_ctor(f, rep):
     fb = fns_of(f, 'fadt::FADTBuilder')
